@@ -246,6 +246,65 @@ PIPELINES.append(Pipeline('U4_parse_timestamp', units=[U_frac, U_pts], prelude=T
                           replay=('c13_text', lambda cex, o: ['ts', hexs(cex.witness('parse_timestamp').split(b'\\0')[0])]),
                           note='arbitrary NUL-terminated string of any length: character k is only read after characters < k were non-NUL; *s += 19 is formed before validation (pointer arithmetic check off for this unit: forming, not using, a pointer past a short string)'))
 
+# ---- U4b: Timestamp::to_iso_str - the text written for a timestamp (relative to gmtime_r) ---------------------------------------------------------------
+ISO_PRELUDE = '''
+#include <time.h>
+struct tm ghost_tm;   /* ghost: what gmtime_r returns for the timestamp */
+/* gmtime_r (libc, trusted): calendar fields of a time between 1970 and 2106 (the 32-bit range of Timestamp) */
+struct tm* verif_gmtime_r(const time_t* t, struct tm* out) { *out = ghost_tm; return out; }
+struct Timestamp { uint32_t m_timestamp; };
+time_t Timestamp_seconds_since_epoch(const struct Timestamp* self) { return (time_t)self->m_timestamp; }
+#define TM_OK(t) ((t).tm_year >= 70 && (t).tm_year <= 206 && (t).tm_mon >= 0 && (t).tm_mon <= 11 && (t).tm_mday >= 1 && (t).tm_mday <= 31 && (t).tm_hour >= 0 && (t).tm_hour <= 23 && \\
+                  (t).tm_min >= 0 && (t).tm_min <= 59 && (t).tm_sec >= 0 && (t).tm_sec <= 60)
+#define D(c) ((c) - '0')
+'''
+U_a2 = Unit(TSH, 'add_2digit_int_to_string', strs=['out'])
+U_a4 = Unit(TSH, 'add_4digit_int_to_string', strs=['out'])
+U_iso = Unit(TSH, 'to_iso_str', cls='Timestamp', selftype='const struct Timestamp', strs=['s'], stub_siblings={'seconds_since_epoch': 'Timestamp_seconds_since_epoch'},
+             pre=[(r'std::tm tm;', 'struct tm tm;'), (r'auto result =\s*gmtime_r\(&sse, &tm\);', 'struct tm* result = verif_gmtime_r(&sse, &tm);'), (r'detail::add_(\d)digit_int_to_string', r'add_\1digit_int_to_string')])
+PIPELINES.append(Pipeline('U4_to_iso_str', units=[U_a2, U_a4, U_iso], stubs=['vstr_exec.h'], prelude=ISO_PRELUDE, loop_contracts=False, unwind=4, harness='''
+void harness(void) {
+  struct Timestamp ts; vstr s; s.size = 0; struct tm g; ghost_tm = g; __CPROVER_assume(TM_OK(ghost_tm));
+  Timestamp_to_iso_str(&ts, &s);
+  __CPROVER_assert(s.size == 20, "U4b the text has the fixed length of yyyy-mm-ddThh:mm:ssZ");
+  __CPROVER_assert(s.data[4] == '-' && s.data[7] == '-' && s.data[10] == 'T' && s.data[13] == ':' && s.data[16] == ':' && s.data[19] == 'Z', "U4b separators are where parse_timestamp expects them");
+  __CPROVER_assert(D(s.data[0]) * 1000 + D(s.data[1]) * 100 + D(s.data[2]) * 10 + D(s.data[3]) == ghost_tm.tm_year + 1900 && D(s.data[5]) * 10 + D(s.data[6]) == ghost_tm.tm_mon + 1 &&
+                   D(s.data[8]) * 10 + D(s.data[9]) == ghost_tm.tm_mday && D(s.data[11]) * 10 + D(s.data[12]) == ghost_tm.tm_hour && D(s.data[14]) * 10 + D(s.data[15]) == ghost_tm.tm_min &&
+                   D(s.data[17]) * 10 + D(s.data[18]) == ghost_tm.tm_sec, "U4b the digits are the calendar fields, so parse_timestamp hands exactly these fields back to timegm");
+  __CPROVER_assert(s.data[0] >= '1' && s.data[0] <= '2' && s.data[1] >= '0' && s.data[1] <= '9' && s.data[5] >= '0' && s.data[5] <= '1' && s.data[18] >= '0' && s.data[18] <= '9', "U4b every position is a decimal digit");
+  __CPROVER_assert(0, "canary"); }''', replay=('c13_text', lambda cex, o: ['--search', '1', 'timestamp']), noflags=['--conversion-check'],
+                          note='all calendar fields gmtime_r can return for a 32-bit timestamp; loop-free, complete; executable string model; asserts of the digit helpers are obligations'))
+
+# ---- U9: output_int - the decimal text of an int64 (ids, versions, ... in the OPL and XML writers) --------------------------------------------------
+OUTF = 'include/osmium/io/detail/output_format.hpp'
+U_oint = Unit(OUTF, 'output_int', cls='OutputBlock', selftype='struct OutputBlock',
+              pre=[(r"\*m_out \+= '-';", "vstr_push_char(m_out, '-');"), (r'm_out->size\(\)', 'm_out->size'), (r'm_out->resize\(', 'vstr_resize(m_out, '), (r'&\(\*m_out\)\[old_size\]', 'vstr_at(m_out, old_size)')])
+PIPELINES.append(Pipeline('U9_output_int', units=[U_oint], stubs=['vstr_exec.h'], prelude='struct OutputBlock { vstr* m_out; };\n', loop_contracts=False, unwind=21, solver='kissat', timeout=900, harness='''
+void harness(void) {
+  vstr s; s.size = 0; struct OutputBlock b; b.m_out = &s; int64_t v;
+  OutputBlock_output_int(&b, v);
+  const size_t first = (v < 0) ? 1 : 0;
+  __CPROVER_assert(s.size >= first + 1 && s.size <= first + 19 + (v == INT64_MIN ? 0 : 0), "U9 a sign for negative values and 1 to 19 digits");
+  __CPROVER_assert((v < 0) == (s.data[0] == '-'), "U9 minus sign exactly for negative values");
+  size_t k; __CPROVER_assume(k >= first && k < s.size);
+  __CPROVER_assert(s.data[k] >= '0' && s.data[k] <= '9', "U9 every other character is a decimal digit");
+  __CPROVER_assert(s.size == first + 1 || s.data[first] != '0', "U9 no leading zero");
+  /* the last digit is the value modulo ten (the full read-back needs 64-bit division reasoning that no back end finished: bounded stand-in below) */
+  __CPROVER_assert((uint64_t)(s.data[s.size - 1] - '0') == (v < 0 ? (uint64_t)0 - (uint64_t)v : (uint64_t)v) % 10, "U9 the last digit is the magnitude modulo ten");
+  __CPROVER_assert(0, "canary"); }''', replay=('c13_text', lambda cex, o: ['outint', cex.first('v', 0)]), noflags=['--conversion-check', '--unsigned-overflow-check'],
+                          note='all 2^64 values; complete unwinding (at most 20 digits); executable string model'))
+
+PIPELINES.append(Pipeline('U9_output_int_value_bounded', units=[U_oint], stubs=['vstr_exec.h'], prelude='struct OutputBlock { vstr* m_out; };\n', loop_contracts=False, unwind=21, solver='kissat', timeout=900, tier='thorough', harness='''
+void harness(void) {
+  vstr s; s.size = 0; struct OutputBlock b; b.m_out = &s; int64_t v; __CPROVER_assume(v >= -9999999 && v <= 9999999);
+  OutputBlock_output_int(&b, v);
+  const size_t first = (v < 0) ? 1 : 0;
+  uint64_t acc = 0; for (size_t i = first; i < s.size; ++i) { acc = acc * 10 + (uint64_t)(s.data[i] - '0'); }
+  __CPROVER_assert(acc == (v < 0 ? (uint64_t)0 - (uint64_t)v : (uint64_t)v), "U9 bounded: the digits read back give the magnitude of the value");
+  __CPROVER_assert(0, "canary"); }''', replay=('c13_text', lambda cex, o: ['outint', cex.first('v', 0)]), noflags=['--conversion-check', '--unsigned-overflow-check'],
+                          bounded='values between -9999999 and 9999999 (the read-back for all 2^64 values did not finish on any back end)',
+                          note='bounded stand-in for the value of output_int; the native oracle c13_text checks the extreme values'))
+
 # ------------------------------------------------------------------ U8: strtoul/strtoll based attribute parsers
 TFS_PRELUDE = GHOST + '''
 #include <limits.h>
@@ -290,10 +349,11 @@ LEVEL_TEXT = ('Proof (unbounded, loop contracts) that string_to_location_coordin
               'return a value within the target type; proof (unbounded in the string length, ghost digit tables, formula-sliced parallel discharge) that '
               'string_to_location_coordinate returns exactly the decimal value rounded half up to seven places for every string of the accepted grammar and '
               'rejects everything else with invalid_location; proof that parse_timestamp accepts exactly the strict ISO form, validates every calendar field '
-              'and passes exactly the validated fields to timegm (assumed contract); proof that string_to_ulong/string_to_object_id are strict relative to an '
+              'and passes exactly the validated fields to timegm (assumed contract); proof that Timestamp::to_iso_str writes exactly the calendar fields gmtime_r returns, two resp. four digits each, '
+              'with the separators where parse_timestamp expects them - so parsing the text of a timestamp hands the same fields back to timegm (the round trip is then libc\'s timegm(gmtime_r(t)) == t); proof that string_to_ulong/string_to_object_id are strict relative to an '
               'assumed strtoul/strtoll contract; complete proof (thorough tier, all 2^32 values, real formatter and parser bodies inlined with complete '
               'unwinding) that parsing the text written for a coordinate returns the identical value. Functional correctness of the OPL integer parser '
               'against an exact 128-bit reference is a bounded stand-in (strings up to 21 characters).')
 LEVEL_NOTE = ('Trusted: CBMC, extraction rules, std::copy_n stub, assumed contracts of timegm, strtoul, strtoll, isspace. Bounded stand-ins are labelled in the '
-              'evidence and not counted as proof. Not decided: Timestamp::to_iso (gmtime_r is libc) and with it the timestamp round trip, Location::set_lon(double), '
+              'evidence and not counted as proof. Not decided: timegm/gmtime_r themselves, Location::set_lon(double), '
               'output_int.')
